@@ -365,9 +365,9 @@ pub fn main(mut chk: Check) -> ! {
     for p in chk.committed_replays() {
         chk.replay_one::<History, _>("histories", &p, oracle);
     }
-    let n = chk.tier().pick(20_000, 400_000);
+    let n = chk.tier().pick(100_000, 600_000);
     chk.run("histories", n, history_strategy(false, true), oracle);
-    let n2 = chk.tier().pick(1_500, 40_000);
+    let n2 = chk.tier().pick(7_500, 60_000);
     chk.run("histories-sqlite", n2, history_strategy(true, true), oracle);
     chk.finish()
 }
